@@ -83,10 +83,15 @@ pub async fn start<F, Fut>(
                 }
             }
             Err(e) => {
+                // the number of event files is unknown: do not add one more, the max file count must hold
                 logger_manager::write_log(
                     Level::Warn,
-                    format!("Failed to get event files with error: {}", e),
+                    format!(
+                        "Failed to get event files with error: {}, drop and skip the write to disk.",
+                        e
+                    ),
                 );
+                continue;
             }
         }
 
